@@ -191,9 +191,15 @@ func delayedSwitchRule(m *mectx, c *Ctx, R func(string) string) {
 	A := cs.Atom
 	for _, st := range stores {
 		reach := cs.Reach(st)
-		_, tgt, _ := loadedField(st.Val)
+		fld, tgt, _ := loadedField(st.Val)
+		isTarget := tgt != nil && fld == "endpoint.id" && isF(tgt)
+		if !isTarget {
+			// the key under which the target was just found stands for the target's id (ids = keys: C13.member)
+			ensureEquiv(fn)
+			isTarget = kstr(st.Val) == kstr(lkF.Index) && dominatesInstr(lkF, st)
+		}
 		imp1, w1 := cs.Implies(reach, cs.And(A("targetPresent"), A("targetAvailable")))
-		c.check(imp1 && tgt != nil && isF(tgt), R("C14.revalidate"), "delayed switch: target still present and available", p.ipos(st),
+		c.check(imp1 && isTarget, R("C14.revalidate"), "delayed switch: target still present and available", p.ipos(st),
 			"the timer moves current only to its target, and only if that is still in the table and available now", "the delayed switch can move current to a target that was removed or is no longer available: "+w1)
 		imp2, w2 := cs.Implies(cs.And(reach, A("curPresent"), A("curBetter")), A("curUnavailable"))
 		c.check(imp2, R("C14.revalidate"), "delayed switch: never down from a usable endpoint", p.ipos(st),
